@@ -196,6 +196,9 @@ pub const MODES: [PMode; 4] = [PMode::Parse, PMode::Check, PMode::ParseState, PM
 pub enum Op {
     /// parse input `inp` through handle `h`; `abort` = k > 0 injects a panic at the k-th user callback
     Parse { h: usize, inp: usize, mode: PMode, refs: u8, abort: u64 },
+    /// re-entrant use: while the parse (h, inp, mode) is inside its `at`-th user callback, a second
+    /// parse (h2, inp2, mode2) runs to completion on the same thread, then the first one continues
+    Reenter { h: usize, inp: usize, mode: PMode, at: u64, h2: usize, inp2: usize, mode2: PMode },
     /// new handle of `form` derived from handle `h`
     Derive { h: usize, form: u8, flip: bool },
     /// plain clone of the handle (same wrapper form)
@@ -218,6 +221,8 @@ fn mode_ix(m: PMode) -> u8 {
 
 #[derive(Clone, Debug)]
 pub struct OpResult {
+    /// true for the inner operation of a `Reenter`
+    pub nested: bool,
     pub op: usize,
     pub key: RefKey,
     pub form: usize,
@@ -248,7 +253,42 @@ where
                     let o = hk.run(|| mk(*inp), *mode, state_seed(*inp), *refs);
                     let (_, _, fired) = hook::end_op();
                     hook::end_ticks();
-                    out.push(OpResult { op: i, key: (*inp, mode_ix(*mode), *abort), form: hk.form(), outcome: o, abort_fired: fired });
+                    out.push(OpResult { nested: false, op: i, key: (*inp, mode_ix(*mode), *abort), form: hk.form(), outcome: o, abort_fired: fired });
+                }
+            }
+            Op::Reenter { h, inp, mode, at, h2, inp2, mode2 } => {
+                if *inp >= npool || *inp2 >= npool {
+                    continue;
+                }
+                if let (Some(Some(hk)), Some(Some(hk2))) = (slots.get(*h), slots.get(*h2)) {
+                    let inner: std::cell::RefCell<Option<Outcome>> = std::cell::RefCell::new(None);
+                    {
+                        let inner_ref = &inner;
+                        let f = move || {
+                            hook::begin_op(0, u64::MAX, u64::MAX);
+                            hook::begin_ticks(u64::MAX);
+                            let o = hk2.run(|| mk(*inp2), *mode2, state_seed(*inp2), 0);
+                            hook::end_op();
+                            hook::end_ticks();
+                            *inner_ref.borrow_mut() = Some(o);
+                        };
+                        let b: Box<dyn FnOnce() + '_> = Box::new(f);
+                        // SAFETY: the closure is taken or cleared before anything it borrows goes out of scope
+                        let b: Box<dyn FnOnce() + 'static> = unsafe { std::mem::transmute(b) };
+                        hook::set_reenter(*at, b);
+                    }
+                    hook::begin_op(0, u64::MAX, u64::MAX);
+                    hook::begin_ticks(u64::MAX);
+                    let o = hk.run(|| mk(*inp), *mode, state_seed(*inp), 0);
+                    hook::end_op();
+                    hook::end_ticks();
+                    hook::clear_reenter();
+                    let form = hk.form();
+                    let form2 = hk2.form();
+                    if let Some(io) = inner.into_inner() {
+                        out.push(OpResult { nested: true, op: i, key: (*inp2, mode_ix(*mode2), 0), form: form2, outcome: io, abort_fired: false });
+                    }
+                    out.push(OpResult { nested: false, op: i, key: (*inp, mode_ix(*mode), 0), form, outcome: o, abort_fired: false });
                 }
             }
             Op::Derive { h, form, flip } => {
@@ -343,7 +383,19 @@ pub fn gen_ops(rng: &mut Rng, npool: usize, cfg: &GenOpsCfg, cbs: &dyn Fn(usize,
     let fav = rng.usize(npool);
     for _ in 0..n {
         let Some(h) = pick_live(rng, &live) else { break };
-        match rng.below(24) {
+        match rng.below(26) {
+            24 | 25 => {
+                let inp = rng.usize(npool);
+                let mode = *rng.pick(&[PMode::Parse, PMode::Parse, PMode::Check, PMode::ParseState]);
+                let c = cbs(inp, mode_ix(mode));
+                if c > 0 {
+                    let live_ix: Vec<usize> = live.iter().enumerate().filter(|(_, b)| **b).map(|(i, _)| i).collect();
+                    let h2 = if rng.chance(2, 3) { h } else { *rng.pick(&live_ix) };
+                    let inp2 = if rng.chance(1, 2) { inp } else { rng.usize(npool) };
+                    let mode2 = *rng.pick(&[PMode::Parse, PMode::Parse, PMode::Check]);
+                    ops.push(Op::Reenter { h, inp, mode, at: rng.range(1, c), h2, inp2, mode2 });
+                }
+            }
             0..=10 => {
                 let inp = if rng.chance(1, 3) { fav } else { rng.usize(npool) };
                 let mode = *rng.pick(&[PMode::Parse, PMode::Parse, PMode::Parse, PMode::Check, PMode::Check, PMode::ParseState, PMode::CheckState]);
@@ -380,9 +432,10 @@ pub fn gen_ops(rng: &mut Rng, npool: usize, cfg: &GenOpsCfg, cbs: &dyn Fn(usize,
 pub fn keys_of(ops: &[Op]) -> Vec<RefKey> {
     let mut v: Vec<RefKey> = ops
         .iter()
-        .filter_map(|o| match o {
-            Op::Parse { inp, mode, abort, .. } => Some((*inp, mode_ix(*mode), *abort)),
-            _ => None,
+        .flat_map(|o| match o {
+            Op::Parse { inp, mode, abort, .. } => vec![(*inp, mode_ix(*mode), *abort)],
+            Op::Reenter { inp, mode, inp2, mode2, .. } => vec![(*inp, mode_ix(*mode), 0), (*inp2, mode_ix(*mode2), 0)],
+            _ => vec![],
         })
         .collect();
     v.sort();
@@ -409,6 +462,10 @@ pub enum Subject {
     Zoo { z: usize },
     /// `Cache<C>` whose `make_parser` builds the grammar at any lifetime; inputs are short-lived
     CacheDyn { grammar: G },
+    /// the same grammar composed through `&dyn Parser` references at every node (no `Boxed`
+    /// anywhere), against the reference built with `boxed()` at every node: the two erasure
+    /// wrappers must be equally transparent
+    DynRef { grammar: G },
 }
 
 #[derive(Clone, Debug, Serialize, Deserialize)]
@@ -462,7 +519,9 @@ fn judge(refs: &BTreeMap<RefKey, (Outcome, u64)>, refs2: &BTreeMap<RefKey, (Outc
     for r in results {
         if let Some((exp, _)) = refs.get(&r.key) {
             if *exp != r.outcome {
-                let class = if r.outcome.is_panic() && !exp.is_panic() {
+                let class = if r.nested {
+                    "history-mismatch-in-reentrant-parse"
+                } else if r.outcome.is_panic() && !exp.is_panic() {
                     "history-panic"
                 } else if r.key.2 > 0 {
                     "history-mismatch-in-aborted-op"
@@ -540,6 +599,8 @@ where
     I::Span: SpanX,
     P: Parser<'a, I, Val, Ex<'a, I>> + Clone + 'a,
 {
+    // `P` is the type of the REFERENCE parser; the history may run on a different parser type
+    // (it only reaches this function as the `history` closure).
     let p1 = if pristine { on_pristine_thread(|| phase1::<I, P>(fresh, mk, npool, plan)) } else { phase1::<I, P>(fresh, mk, npool, plan) };
     let Some((ops_v, refs)) = p1 else { return discarded(vec![], BTreeMap::new()) };
     if heavy(&refs) {
@@ -616,7 +677,7 @@ fn run_cache_history(g: &G, pool: &[Vec<u8>], ops: &[Op]) -> Vec<OpResult> {
                 let (_, _, fired) = hook::end_op();
                 hook::end_ticks();
                 drop(short);
-                out.push(OpResult { op: i, key: (*inp, mode_ix(*mode), *abort), form: 12, outcome: o, abort_fired: fired });
+                out.push(OpResult { nested: false, op: i, key: (*inp, mode_ix(*mode), *abort), form: 12, outcome: o, abort_fired: fired });
             }
             Op::Derive { .. } | Op::CloneH { .. } => extra.push(Some(Cache::new(CG(g.clone())))),
             Op::DropH { h } => {
@@ -625,6 +686,48 @@ fn run_cache_history(g: &G, pool: &[Vec<u8>], ops: &[Op]) -> Vec<OpResult> {
                         *s = None;
                     }
                 }
+            }
+            Op::Reenter { h, inp, mode, at, h2, inp2, mode2 } => {
+                if *inp >= pool.len() || *inp2 >= pool.len() {
+                    continue;
+                }
+                let pick = |h: usize| -> Option<&Cache<CG>> {
+                    if h == 0 {
+                        Some(&cache)
+                    } else {
+                        extra.get(h - 1).and_then(|c| c.as_ref())
+                    }
+                };
+                let (Some(c1), Some(c2)) = (pick(*h), pick(*h2)) else { continue };
+                let short1: Vec<u8> = pool[*inp].iter().map(|s| u8::from_sym(*s)).collect();
+                let short2: Vec<u8> = pool[*inp2].iter().map(|s| u8::from_sym(*s)).collect();
+                let inner: std::cell::RefCell<Option<Outcome>> = std::cell::RefCell::new(None);
+                {
+                    let inner_ref = &inner;
+                    let short2 = &short2;
+                    let f = move || {
+                        hook::begin_op(0, u64::MAX, u64::MAX);
+                        hook::begin_ticks(u64::MAX);
+                        let o = exec::<&[u8], _, _>(c2.get(), || &short2[..], *mode2, state_seed(*inp2));
+                        hook::end_op();
+                        hook::end_ticks();
+                        *inner_ref.borrow_mut() = Some(o);
+                    };
+                    let b: Box<dyn FnOnce() + '_> = Box::new(f);
+                    // SAFETY: taken or cleared before anything it borrows goes out of scope
+                    let b: Box<dyn FnOnce() + 'static> = unsafe { std::mem::transmute(b) };
+                    hook::set_reenter(*at, b);
+                }
+                hook::begin_op(0, u64::MAX, u64::MAX);
+                hook::begin_ticks(u64::MAX);
+                let o = exec::<&[u8], _, _>(c1.get(), || &short1[..], *mode, state_seed(*inp));
+                hook::end_op();
+                hook::end_ticks();
+                hook::clear_reenter();
+                if let Some(io) = inner.into_inner() {
+                    out.push(OpResult { nested: true, op: i, key: (*inp2, mode_ix(*mode2), 0), form: 12, outcome: io, abort_fired: false });
+                }
+                out.push(OpResult { nested: false, op: i, key: (*inp, mode_ix(*mode), 0), form: 12, outcome: o, abort_fired: false });
             }
             Op::MoveH { .. } | Op::Nop => {}
         }
@@ -717,6 +820,18 @@ pub fn run_spec(subject: &Subject, pool_syms: &[Vec<u8>], pool_text: &[String], 
             }
         }
         Subject::Zoo { z } => with_zoo(*z, ZooDrive { texts: pool_text, plan, pristine }),
+        Subject::DynRef { grammar } => {
+            let g = grammar;
+            let arena = crate::build::Arena::default();
+            let arena_ref = &arena;
+            let mk = move |i: usize| &toks[i][..];
+            // one shared tree of `&dyn` nodes; handles are copies of the root reference
+            let root: crate::build::SP<'_, &[u8]> = crate::build::build_sync::<&[u8]>(g, arena_ref);
+            struct SendPtr<T>(T);
+            unsafe impl<T> Sync for SendPtr<T> {}
+            let _ = SendPtr(0u8);
+            drive::<&[u8], BP<'_, &[u8]>>(&|| build::<&[u8]>(g), &mk, n, plan, pristine, &|ops| run_history::<&[u8], crate::build::SP<'_, &[u8]>>(root, &mk, n, ops))
+        }
         Subject::CacheDyn { grammar } => {
             let g = grammar;
             drive::<&[u8], BP<'_, &[u8]>>(&|| build::<&[u8]>(g), &move |i: usize| &toks[i][..], n, plan, pristine, &|ops| run_cache_history(g, pool_syms, ops))
@@ -738,6 +853,7 @@ fn subject_shown(s: &Subject) -> String {
         Subject::Dyn { grammar, kind } => format!("dyn[{:?}] {}", kind, gram::sexpr(grammar)),
         Subject::Zoo { z } => format!("zoo::{}", zoo::ZOO_NAMES[*z]),
         Subject::CacheDyn { grammar } => format!("Cache[&[u8]] {}", gram::sexpr(grammar)),
+        Subject::DynRef { grammar } => format!("&dyn-at-every-node[&[u8]] {}", gram::sexpr(grammar)),
     }
 }
 
@@ -804,6 +920,7 @@ impl HistSim {
                     acc.inc(&format!("ops.parse.mode.{:?}", mode));
                     "ops.parse"
                 }
+                Op::Reenter { .. } => "ops.reentrant_parse(second parse started inside a callback of the first)",
                 Op::Derive { .. } => "ops.derive_wrapper",
                 Op::CloneH { .. } => "ops.clone_handle",
                 Op::DropH { h } => {
@@ -826,6 +943,9 @@ impl HistSim {
         for r in &ran.results {
             if let Op::Parse { h, .. } = &case.ops[r.op] {
                 by_h.entry(*h).or_default().push(r.outcome.accepted());
+            }
+            if r.nested {
+                acc.inc("fired.reentrant_parse_ran_inside_callback");
             }
         }
         if by_h.values().any(|v| v.windows(2).any(|w| w[0] == Some(false) && w[1] == Some(true))) {
@@ -1032,6 +1152,12 @@ pub fn gen_case(seed: u64, idx: u64) -> Option<(HistCase, Rng, GenOpsCfg)> {
         pool.push(gram::gen_input(&g, &mut rng, gcfg.nsym, max_len));
     }
     let subject = match pick {
+        9 => {
+            let mut g = g;
+            gram::strip_for_sync(&mut g);
+            gram::fixup(&mut g, gcfg.nsym);
+            Subject::DynRef { grammar: g }
+        }
         1 | 2 => Subject::Dyn { grammar: g, kind: InKind::Str },
         3 => Subject::Dyn { grammar: g, kind: InKind::Stream },
         4 => Subject::Dyn { grammar: g, kind: InKind::Io },
@@ -1098,7 +1224,7 @@ pub fn minimise(rp: &Replay) -> Replay {
             return None;
         }
         budget -= 1;
-        if let Subject::Dyn { grammar, .. } | Subject::CacheDyn { grammar } = &cand.spec.subject {
+        if let Subject::Dyn { grammar, .. } | Subject::CacheDyn { grammar } | Subject::DynRef { grammar } = &cand.spec.subject {
             if !gram::well_scoped(grammar, false) {
                 return None;
             }
@@ -1160,6 +1286,19 @@ pub fn minimise(rp: &Replay) -> Replay {
                 }
             }
         }
+        for i in 0..best.spec.ops.len() {
+            if let Op::Reenter { h, inp, mode, h2, inp2, mode2, .. } = best.spec.ops[i].clone() {
+                for cand in [Op::Parse { h, inp, mode, refs: 0, abort: 0 }, Op::Parse { h: h2, inp: inp2, mode: mode2, refs: 0, abort: 0 }] {
+                    let mut c = best.clone();
+                    c.spec.ops[i] = cand;
+                    if let Some(b) = still(&c) {
+                        best = b;
+                        progress = true;
+                        break;
+                    }
+                }
+            }
+        }
         // 4. shrink pool inputs
         for pi in 0..best.spec.pool_syms.len() {
             let mut j = 0;
@@ -1176,14 +1315,14 @@ pub fn minimise(rp: &Replay) -> Replay {
         }
         // 5. shrink the grammar
         let g0 = match &best.spec.subject {
-            Subject::Dyn { grammar, .. } | Subject::CacheDyn { grammar } => Some(grammar.clone()),
+            Subject::Dyn { grammar, .. } | Subject::CacheDyn { grammar } | Subject::DynRef { grammar } => Some(grammar.clone()),
             _ => None,
         };
         if let Some(g0) = g0 {
             let n = gram::count_nodes(&g0);
             for pos in 0..n {
                 let cur = match &best.spec.subject {
-                    Subject::Dyn { grammar, .. } | Subject::CacheDyn { grammar } => grammar.clone(),
+                    Subject::Dyn { grammar, .. } | Subject::CacheDyn { grammar } | Subject::DynRef { grammar } => grammar.clone(),
                     _ => unreachable!(),
                 };
                 for mut gnew in crate::srcsim::shrink_at(&cur, pos) {
@@ -1193,7 +1332,14 @@ pub fn minimise(rp: &Replay) -> Replay {
                     }
                     let mut c = best.clone();
                     match &mut c.spec.subject {
-                        Subject::Dyn { grammar, .. } | Subject::CacheDyn { grammar } => *grammar = gnew,
+                        Subject::Dyn { grammar, .. } | Subject::CacheDyn { grammar } | Subject::DynRef { grammar } => {
+                            *grammar = gnew;
+                            if matches!(c.spec.subject, Subject::DynRef { .. }) {
+                                if let Subject::DynRef { grammar } = &mut c.spec.subject {
+                                    gram::strip_for_sync(grammar);
+                                }
+                            }
+                        }
                         _ => {}
                     }
                     if let Some(b) = still(&c) {
